@@ -2,10 +2,10 @@ package harness
 
 import (
 	"bytes"
-	"os"
 	"encoding/json"
 	"fmt"
 	"hash/fnv"
+	"os"
 	"sort"
 	"strings"
 
@@ -19,23 +19,23 @@ import (
 // seq-bg: the database's background goroutines run only at operation boundaries (control ops
 // bg/drain/gctimer) or when the driver itself has to wait for them.
 type SeqCase struct {
-	Prop     string    `json:"prop"`
-	Sched    SchedSpec `json:"sched"`
-	World    WorldSpec `json:"world"`
-	Keys     []string  `json:"keys"`
-	Ops      []Op      `json:"ops"`
-	ReadBack string    `json:"readback"` // all: every open actor reads every key + GetKeys after each data step; auto: autocommit only; none
-	Walk     string    `json:"walk,omitempty"`  // "": none; "shape": C17 layout walk after every step; "final": C14 exact-content walk at the end
-	Client   string    `json:"client,omitempty"` // inline (default) | simgrpc
-	BadgerFailUpdates []uint64 `json:"badger_fail,omitempty"` // indices (per world, 1-based) of Badger updates that fail before applying
-	FaultOps []int     `json:"fault_ops,omitempty"` // indices of ops whose Badger updates fail (resolved at run time)
+	Prop              string    `json:"prop"`
+	Sched             SchedSpec `json:"sched"`
+	World             WorldSpec `json:"world"`
+	Keys              []string  `json:"keys"`
+	Ops               []Op      `json:"ops"`
+	ReadBack          string    `json:"readback"`              // all: every open actor reads every key + GetKeys after each data step; auto: autocommit only; none
+	Walk              string    `json:"walk,omitempty"`        // "": none; "shape": C17 layout walk after every step; "final": C14 exact-content walk at the end
+	Client            string    `json:"client,omitempty"`      // inline (default) | simgrpc
+	BadgerFailUpdates []uint64  `json:"badger_fail,omitempty"` // indices (per world, 1-based) of Badger updates that fail before applying
+	FaultOps          []int     `json:"fault_ops,omitempty"`   // indices of ops whose Badger updates fail (resolved at run time)
 	// process-boundary segments: the world lives in Dir (kept between processes); operations before
 	// From only advance the model (earlier processes executed them), operations from To on are left
 	// to later processes
-	Dir     string `json:"dir,omitempty"`
-	From    int    `json:"from,omitempty"`
-	To      int    `json:"to,omitempty"`
-	Fixture string `json:"fixture,omitempty"` // start from this database directory (written by another binary) instead of an empty one
+	Dir     string       `json:"dir,omitempty"`
+	From    int          `json:"from,omitempty"`
+	To      int          `json:"to,omitempty"`
+	Fixture string       `json:"fixture,omitempty"` // start from this database directory (written by another binary) instead of an empty one
 	Corrupt *CorruptSpec `json:"corrupt,omitempty"`
 }
 
@@ -47,20 +47,20 @@ type CorruptSpec struct {
 }
 
 type seqRun struct {
-	c      SeqCase
-	w      *World
-	m      *refmodel.Model
-	a      *actors
-	idx    *valueIndex
-	viol   *Violation
-	states map[uint64]bool
-	probes map[string]uint64
-	faults map[string]uint64
-	ended  map[int]bool
+	c           SeqCase
+	w           *World
+	m           *refmodel.Model
+	a           *actors
+	idx         *valueIndex
+	viol        *Violation
+	states      map[uint64]bool
+	probes      map[string]uint64
+	faults      map[string]uint64
+	ended       map[int]bool
 	dirSeenFull map[string]bool
 	dirRegained map[string]int
 	writesSince map[string]int
-	nontrivial bool
+	nontrivial  bool
 }
 
 func actorName(m *refmodel.Model, tx int) string {
@@ -178,6 +178,13 @@ func (s *seqRun) step(i int, o Op) bool {
 		} else if (o.K == "set" || o.K == "del" || o.K == "setr" || o.K == "create") && r.Class == "other" && s.faultAt(i) {
 			s.faults["badger-update-failed-in-write"]++
 			// the write failed: the model does not apply it
+		} else if (o.K == "set" || o.K == "setr" || o.K == "create") && o.Key != "" && r.Class == "ErrNoFreeSpace" && s.tightDisk() {
+			// the simulated disk is (nearly) full: the write legitimately fails and is not applied;
+			// what C01 still demands is that every write reported successful reads back exactly
+			s.faults["write-failed-no-free-space"]++
+			if o.ID != 0 {
+				s.idx.add(refmodel.Val{ID: o.ID, Size: o.Size})
+			}
 		} else if cl, d := modelApply(s.m, o, r, s.idx); cl != "" {
 			s.fail(cl, fmt.Sprintf("op=%s,actor=%s", o.K, an), fmt.Sprintf("step %d (%s by %s): %s", i, o, an, d))
 			return false
@@ -202,6 +209,15 @@ func (s *seqRun) step(i int, o Op) bool {
 		s.readBack(o, i)
 	}
 	return s.viol == nil
+}
+
+func (s *seqRun) tightDisk() bool {
+	for _, r := range s.c.World.Roots {
+		if r.Reported > 0 {
+			return true
+		}
+	}
+	return false
 }
 
 func (s *seqRun) faultAt(i int) bool {
